@@ -58,6 +58,15 @@ def collect(U, funcs):
   return out
 
 
+def _exponent_may_drop_below_one(ex):
+  """exponent terms `e - c` (c > 0) or non-integer constants below 1."""
+  if pred.is_const(ex) and isinstance(ex[1], (int, float)):
+    return ex[1] < 1 and float(ex[1]) != int(ex[1])
+  if ex[0] == 'bin' and ex[1] == 'Sub' and pred.is_const(ex[3]) and isinstance(ex[3][1], (int, float)) and ex[3][1] > 0:
+    return True
+  return False
+
+
 def r3_sites(U, rep, tier):
   R = U.pipeline_reach()
   scope = set(R)
@@ -91,6 +100,13 @@ def r3_sites(U, rep, tier):
       what = 'division by a state-dependent denominator without a positive epsilon / clip guard'
     else:
       cls = guards.classify(s.term)[0]
+      if s.kind == 'power' and cls not in ('CONST', 'PARAM', 'SAFE') and (exc.get(key) or {}).get('class') != 'PARAM' \
+          and s.exp is not None and _exponent_may_drop_below_one(s.exp):
+        # x ** (p - c): for a state-dependent base that can be 0 the derivative is 0 * inf whenever p - c < 1 -- the listed
+        # power sites of the tree raise such bases to the configuration exponent itself (p >= 1), never to p - 1
+        rep.fail('R3.2', key, 'a state-dependent base is raised to `%s`, an exponent that can be below 1 (the derivative at a zero '
+                 'base is 0 * inf = NaN)' % pred.show(s.exp), where=where, construct=ast.unparse(s.node)[:200])
+        continue
       if cls in ('CONST', 'PARAM', 'SAFE') and s.kind in ('power', 'sqrt', 'norm', 'log'):
         rep.ok('R3.2', key, construct='%s of %s argument' % (s.kind, cls), where=where)
         continue
